@@ -218,4 +218,35 @@ theorem tiles_scalar {n : Nat} {σ : Text} {seg : List Tok} (hn : σ.length = n)
     exact List.cons_eq_cons.2 ⟨tok_eq (by omega) (by omega), List.cons_eq_cons.2 ⟨tok_eq (by omega) (by omega),
       List.cons_eq_cons.2 ⟨tok_eq (by omega) (by omega), rfl⟩⟩⟩
 
+/-- `){a}` as a text of its own -/
+theorem tiles_close_op : Tiles 4 [41, 123, 97, 125]
+    [⟨.parenR, 0, 1, [41]⟩, ⟨.curlyL, 1, 2, [123]⟩, ⟨.name, 2, 3, [97]⟩, ⟨.curlyR, 3, 4, [125]⟩, eofT 4] :=
+  Tiles.tok [] [41] [123, 97, 125] .parenR [41] _ .nil ⟨rfl, rfl⟩ trivial
+    (Tiles.tok [] [123] [97, 125] .curlyL [123] _ .nil lexeme_curlyL trivial
+      (Tiles.tok [] [97] [125] .name [97] _ .nil lexeme_a (by rfl)
+        (Tiles.tok [] [125] [] .curlyR [125] [eofT 4] .nil lexeme_curlyR trivial (.eof [] .nil))))
+
+/-- `query(σ⏎){a}` -/
+theorem tiles_query {n : Nat} {σ : Text} {seg : List Tok} (hn : σ.length = n) (h : Tiles n σ (seg ++ [eofT n])) :
+    Tiles ([113, 117, 101, 114, 121, 40] ++ σ ++ [10, 41, 123, 97, 125]).length
+      ([113, 117, 101, 114, 121, 40] ++ σ ++ [10, 41, 123, 97, 125])
+      (⟨.name, 0, 5, [113, 117, 101, 114, 121]⟩ :: ⟨.parenL, 5, 6, [40]⟩ ::
+        (seg.map (Tok.up 6) ++ [⟨.parenR, n + 7, n + 8, [41]⟩, ⟨.curlyL, n + 8, n + 9, [123]⟩, ⟨.name, n + 9, n + 10, [97]⟩,
+          ⟨.curlyR, n + 10, n + 11, [125]⟩, eofT (n + 11)])) := by
+  have h1 := Tiles.append_after [41, 123, 97, 125] _ tiles_close_op seg h
+  have h2 := h1.up 6 (by simp [hn])
+  have h3 := Tiles.tok [] [40] _ .parenL [40] _ .nil ⟨rfl, rfl⟩ trivial h2
+  refine Tiles.cast (Tiles.tok [] [113, 117, 101, 114, 121] _ .name [113, 117, 101, 114, 121] _ .nil ⟨rfl, rfl⟩ (by rfl) h3)
+    ?_ ?_ ?_
+  · simp [hn]
+  · simp
+  · rw [List.map_append]
+    refine List.cons_eq_cons.2 ⟨tok_eq (by simp [hn]) (by simp [hn]), ?_⟩
+    refine List.cons_eq_cons.2 ⟨tok_eq (by simp [hn]) (by simp [hn]), ?_⟩
+    refine congrArg (List.map (Tok.up 6) seg ++ ·) ?_
+    simp only [List.map_cons, List.map_nil, Tok.up, eofT]
+    exact List.cons_eq_cons.2 ⟨tok_eq (by omega) (by omega), List.cons_eq_cons.2 ⟨tok_eq (by omega) (by omega),
+      List.cons_eq_cons.2 ⟨tok_eq (by omega) (by omega), List.cons_eq_cons.2 ⟨tok_eq (by omega) (by omega),
+        List.cons_eq_cons.2 ⟨tok_eq (by omega) (by omega), rfl⟩⟩⟩⟩⟩
+
 end PyGql.Spec
